@@ -16,16 +16,9 @@ DEC = "identity_jose::jws::decoder"
 
 
 def roots_and_accessors(expr, env):
-    """(set of parameter names any variable mentioned under the expression derives from (closure bodies included),
-        set of last path segments of every fn called/mentioned)"""
-    roots = set()
-    for x in H.walk(expr):
-        if x.get("k") == "path" and "local" in x.get("res", {}):
-            for o in H.origins(x, env):
-                if o[0] == "param":
-                    roots.add(o[1])
+    """(parameters the expression may depend on, last path segments of every fn called/mentioned under it)"""
     accs = {f.rsplit("::", 1)[-1] for f in H.called_fns(expr)}
-    return roots, accs
+    return H.param_roots(expr, env), accs
 
 
 def run(F, R, tier):
@@ -306,6 +299,19 @@ def run(F, R, tier):
             r6.site("alg() receiver ← %s" % sorted(map(str, oo)), c["sp"])
             ok = bool(oo) and all(o[:3] == ("param", "self", "headers") and len(o) > 3 and o[3] in ("Protected", "protected") for o in oo)
             r6.require(ok, (vfy, "alg-source"), "alg is read from %s, not from the protected header" % sorted(map(str, oo)))
+        # the algorithm handed to the key check and to the verifier derives from the protected header only
+        ACC_ = re.compile(r"JwsHeader::(alg|b64)$|JwsAlgorithm::name$")
+        n_alg = 0
+        for s_ in H.struct_lits(h):
+            if s_.get("ty", "").endswith("::VerificationInput"):
+                for f in s_["fields"]:
+                    if f["name"] == "alg":
+                        oo = H.origins(f["e"], env, accessors=ACC_)
+                        n_alg += 1
+                        r6.site("VerificationInput.alg ← %s" % sorted(map(str, oo)), f["e"].get("sp"))
+                        r6.require(bool(oo) and all(o[:3] == ("param", "self", "headers") and len(o) > 3 and o[3] in ("Protected", "protected") and o[-1] == "alg" for o in oo),
+                                   (vfy, "alg-flow"), "the alg given to the verifier can come from outside the protected header: %s" % sorted(map(str, oo)))
+        r6.require(n_alg == 1, (vfy, "alg-flow", "site"), "VerificationInput literal with an alg field not found in verify()")
         # the header-set table: Unprotected-only → MissingHeader
         ms = [n for n in H.walk(H.root(h)) if n.get("k") == "match" and n.get("src") == "normal"
               and any(o[:3] == ("param", "self", "headers") for o in H.origins(n["scrut"], env))]
@@ -330,7 +336,7 @@ def run(F, R, tier):
                     r6.require(oc == "None", ("DecodedHeaders::protected_header", "Unprotected"), "an unprotected-only header set yields a protected header")
                 elif k_.startswith("Both"):
                     r6.require(all(o[-1] == "protected" for o in oo if o[0] == "param"), ("DecodedHeaders::protected_header", "Both"), "Both{..} does not yield its protected member: %s" % sorted(map(str, oo)))
-    r6.floor(8)
+    r6.floor(9)
 
     # ------------------------------------------------------------------ R7 deny_unknown_fields
     r7 = R.rule("C11-R7", "T12", "JSON serialization containers reject unknown members (deny_unknown_fields)")
